@@ -177,7 +177,7 @@ pub fn run(r: &mut R) {
     return Case(cid, mod, meta={"kind": "struct", "named": named, "n": n, "typing": "scalar-only" + ("/generic" if generic else ""), "forward": False, "src": src})
 
 
-VK = {"unit": [], "t0": [], "n0": [], "t1": [0], "t2": [0, 1], "n2": [0, 1], "n1": [0], "t3": [0, 1, 2]}
+VK = {"unit": [], "t0": [], "n0": [], "t11": list(range(11)), "n11": list(range(11)), "t1": [0], "t2": [0, 1], "n2": [0, 1], "n1": [0], "t3": [0, 1, 2]}
 
 
 def enum_case(cid, kinds, typing, forward):
@@ -261,6 +261,11 @@ def run(chk, tier):
                     continue
                 for forward in (False, True) + (("not",) if n <= 2 and (thorough or typing == "same") else ()):
                     cases.append(struct_case("s%d" % len(cases), named, n, typing, forward))
+    # wide structs: two-digit field positions (any ordering of generated names or indices by text shows here)
+    for named in (False, True):
+        for typing in ("distinct", "same"):
+            for forward in (False, True):
+                cases.append(struct_case("s%d" % len(cases), named, 11, typing, forward))
     for named in (False, True):
         for n in (1, 2, 3):
             for generic in (False, True):
@@ -275,6 +280,7 @@ def run(chk, tier):
     # variants with an EMPTY field list (`V()`, `V {}`) are not unit variants: they combine like any other variant
     ek = ["t0", "n0"]
     combos += [(a,) for a in ek] + [p for a in ek for b in (["unit", "t1", "n2"] + ek) for p in ((a, b), (b, a))]
+    combos += [("t11",), ("n11", "unit"), ("t11", "n11")]
     combos = list(dict.fromkeys(combos))
     vk = vk + ek
     if True:
